@@ -10,7 +10,8 @@ Record snap := mkSnap {
   sn_now : Z; sn_client : bool; sn_hs : bool; sn_idle : Z; sn_kai : Z;
   sn_kap : Z; sn_cfgIdle : Z; sn_hsIdle : Z; sn_hsTimeout : Z;
   sn_creation : Z; sn_lastRecv : Z; sn_firstAE : Z; sn_kaSent : bool;
-  sn_blocked : Z; sn_pacing : Z; sn_pto : Z; sn_ack : Z; sn_loss : Z }.
+  sn_blocked : Z; sn_pacing : Z; sn_pto : Z; sn_ack : Z; sn_loss : Z;
+  sn_retire : Z }.   (* connIDGenerator.NextRetireTime(), 0 = nothing waits *)
 
 Definition st_of (s : snap) : st :=
   {| cf := {| c_client := sn_client s; c_keepAlivePeriod := sn_kap s; c_maxIdleTimeout := sn_cfgIdle s; c_hsIdleTimeout := sn_hsIdle s |};
@@ -118,7 +119,7 @@ Definition model_obs (c : case) : obs :=
   | SnapCase s _ _ _ _ =>
     let m := st_of s in
     SnapObs (hsTimeout (cf m)) (idleStart m) (nextIdle m (sn_pto s)) (nextKA m (sn_pto s))
-            (maybeResetTimer m (sn_pto s) (sn_ack s) (sn_loss s))
+            (maybeResetTimer m (sn_pto s) (sn_retire s) (sn_ack s) (sn_loss s))
   | WakeCase s now _ => WakeObs (decision_code (decide (st_of s) now (sn_pto s)))
   | ParamsCase cfgIdle peerIdle peerAdv kap _ _ =>
     let m := applyTP (init {| c_client := true; c_keepAlivePeriod := kap; c_maxIdleTimeout := cfgIdle; c_hsIdleTimeout := 0 |} 1) peerIdle peerAdv in
